@@ -278,7 +278,7 @@ theorem c16_lexOk_initToks (anns : String → Ann) (s : Sig) (h : textDomain ann
         simp only [kwItem, List.mem_cons, List.not_mem_nil, or_false] at hu
         rcases hu with rfl | rfl
         · rfl
-        · decide
+        · exact c16_identChars_of_identOk (c16_kwName_ok _)
   · rfl
   · rfl
   · rfl
@@ -317,7 +317,7 @@ theorem c16_lexOk_helperToks (anns : String → Ann) (hk : Helper) (s : Sig) (h 
     simp only [List.mem_append, List.mem_map] at hx
     rcases hx with (hx | ⟨p, hp, rfl⟩) | hx
     · exact c16_lexOk_helperLead hk x hx u hu
-    · exact c16_lexOk_helperItem _ p (hdom p hp).1 (hdom p hp).2 u hu
+    · exact c16_lexOk_helperItem _ p (hdom p (c16_helperFields_sub hp)).1 (hdom p (c16_helperFields_sub hp)).2 u hu
     · cases hkw : s.kw
       · simp [hkw] at hx
       · simp only [hkw, if_true, List.mem_singleton] at hx
@@ -325,7 +325,7 @@ theorem c16_lexOk_helperToks (anns : String → Ann) (hk : Helper) (s : Sig) (h 
         simp only [kwItem, List.mem_cons, List.not_mem_nil, or_false] at hu
         rcases hu with rfl | rfl
         · rfl
-        · decide
+        · exact c16_identChars_of_identOk (c16_kwName_ok _)
   · rfl
   · rfl
   · rfl
